@@ -774,14 +774,22 @@ func (c *Ctx) checkSymbolKeysByNumber(rule string) {
 		return len(asserted) >= 2
 	}
 	n := 0
-	for _, name := range []string{"SexpHash.HashSet", "SexpHash.HashDelete", "SexpHash.HashGetDefault"} {
-		f := c.mustFn(rule, name)
-		if f == nil {
-			continue
-		}
+	head := c.field("SexpPair", "Head")
+	// every routine that compares the stored key of a bucket entry (pair.Head) with another key
+	for _, f := range c.zygoFuncs() {
+		name := fnName(f)
 		eachInstr(f, func(b *ssa.BasicBlock, i int, in ssa.Instruction) {
 			call, ok := in.(*ssa.Call)
-			if !ok || !cmps[call.Call.StaticCallee()] {
+			if !ok || !cmps[call.Call.StaticCallee()] || head == nil {
+				return
+			}
+			onStoredKey := false
+			for _, a := range call.Call.Args {
+				if pair, ok := loadOfField(a, head); ok && fromBucket(pair, c.field("SexpHash", "Map"), 0) {
+					onStoredKey = true
+				}
+			}
+			if !onStoredKey || cmps[topFn(f)] {
 				return
 			}
 			n++
@@ -855,4 +863,40 @@ func (c *Ctx) checkHashStorageNotShared(rule string) {
 		c.ok(rule, "package", "order lists and buckets are not shared", token.NoPos, fmt.Sprintf("%d stores to an order list and every copy of a bucket map examined: none hands one hash's slice to another", nA))
 	}
 	_ = nB
+}
+
+// fromBucket: v (a *SexpPair) was taken out of a bucket of a hash's Map: an element of the slice a
+// look-up or a range over the map yields.
+func fromBucket(v ssa.Value, mp *types.Var, depth int) bool {
+	if depth > 8 || mp == nil {
+		return false
+	}
+	if _, ok := loadOfField(v, mp); ok {
+		return true
+	}
+	switch x := v.(type) {
+	case *ssa.UnOp:
+		return fromBucket(x.X, mp, depth+1)
+	case *ssa.IndexAddr:
+		return fromBucket(x.X, mp, depth+1)
+	case *ssa.Index:
+		return fromBucket(x.X, mp, depth+1)
+	case *ssa.Lookup:
+		return fromBucket(x.X, mp, depth+1)
+	case *ssa.Extract:
+		return fromBucket(x.Tuple, mp, depth+1)
+	case *ssa.Next:
+		return fromBucket(x.Iter, mp, depth+1)
+	case *ssa.Range:
+		return fromBucket(x.X, mp, depth+1)
+	case *ssa.Slice:
+		return fromBucket(x.X, mp, depth+1)
+	case *ssa.Phi:
+		for _, e := range x.Edges {
+			if fromBucket(e, mp, depth+1) {
+				return true
+			}
+		}
+	}
+	return false
 }
